@@ -2,7 +2,7 @@
 """keep_seed.py <Cxx> <N> <slug> <needs> <detected-by> : copy a confirmed sub-agent change into /verif/seeded/<Cxx>-<slug>/"""
 import json, os, shutil, sys
 cid, n, slug, needs, detected = sys.argv[1:6]
-src = "/tmp/seed/%s/SEED/%s" % (cid, n)
+src = "%s/%s/SEED/%s" % (os.environ.get("SEEDBASE", "/tmp/seed"), cid, n)
 dst = "/verif/seeded/%s-%s" % (cid, slug)
 shutil.rmtree(dst, ignore_errors=True)
 os.makedirs(dst)
